@@ -1,1 +1,37 @@
-From Arche Require Import Model.Base.
+(** C03 - Queries visit exactly the matching entities, once; Count/EntityAt/Step agree.
+    Statements only; proofs in Proofs/Cursor.v (cursor machine against the flat
+    enumeration) and Proofs/WorldInv.v (the enumeration against the world, see below). *)
+From Arche Require Import Model.Base Model.World Model.Ops Proofs.Cursor.
+
+(** Iterating [Next] from a fresh query visits exactly the enumeration, in order, each
+    position once, and then reports exhaustion. *)
+Theorem C03_next_enumerates : forall segs b l,
+  Forall seg_ok segs -> visit (S (length (enum segs))) (fresh segs b l) = enum segs.
+Proof. exact next_enumerates. Qed.
+
+(** [Count] equals the number of positions [Next] visits. *)
+Theorem C03_count : forall segs b l,
+  Forall seg_ok segs -> q_count (fresh segs b l) = length (enum segs).
+Proof. exact count_is_length. Qed.
+
+(** [EntityAt i] is the entity at the i-th visited position (out of range: panic). *)
+Theorem C03_entity_at : forall w segs i,
+  Forall seg_ok segs ->
+  entity_at w segs i =
+  enum segs !! i ≫= fun '(tid, row) => w_tables w !! tid ≫= fun t => t_ents t !! row.
+Proof. exact entity_at_is_nth. Qed.
+
+(** [Step k] lands where [k] calls of [Next] would, from any cursor position, and ends
+    the query exactly when they would. *)
+Theorem C03_step : forall fuel q k,
+  qinv q -> 0 < k -> length (drop (q_next q) (q_segs q)) < fuel -> Forall seg_ok (q_segs q) ->
+  match step_loop fuel q k with
+  | Some (q', true) => iter_next k q = Some q'
+  | Some (_, false) => iter_next k q = None
+  | None => False
+  end.
+Proof. exact step_is_iter_next. Qed.
+
+Print Assumptions C03_next_enumerates.
+Print Assumptions C03_step.
+Print Assumptions C03_entity_at.
